@@ -11,12 +11,12 @@ def can(i):
     return ["can", i]
 
 
-def lobj(typ, osz, total, fill=0x11):
-    """raw bytes of an object with a base header only (declared size osz, total bytes emitted)"""
+def lobj(typ, osz, total, fill=0x11, hsz=16):
+    """raw bytes of an object with a base header only (declared size osz, declared header size hsz, total bytes emitted)"""
     import struct
     b = bytearray([fill] * max(total, 16))
     b[0:4] = b"LOBJ"
-    b[4:16] = struct.pack("<HHII", 16, 1, osz, typ)
+    b[4:16] = struct.pack("<HHII", hsz, 1, osz, typ)
     return ["raw", "".join("%02x" % x for x in b[:total])]
 
 
